@@ -336,8 +336,12 @@ let b2s b = if b then "1" else "0"
 let ob2s = function Some true -> "1" | Some false -> "0" | None -> "u"
 let obj_tags pfx (o : obj) =
   let ne = nonempty o.gamma in
-  Printf.sprintf " %sempty=%s %smarked=%s %suniverse=%s" pfx (match ne with Some b -> b2s (not b) | None -> "u") pfx (b2s o.empty_marked)
+  let has_sub (sub : string) (str : string) =
+    let n = String.length sub and m = String.length str in
+    let rec go i = i + n <= m && (String.sub str i n = sub || go (i + 1)) in go 0 in
+  Printf.sprintf " %sempty=%s %smarked=%s %suniverse=%s %sreduced=%s" pfx (match ne with Some b -> b2s (not b) | None -> "u") pfx (b2s o.empty_marked)
     pfx (ob2s (timed (fun () -> q_is_universe (dn [ o.gamma ] o.dim) o.gamma) None))
+    pfx (b2s (has_sub "+SPR" o.flags))
 
 let check_state_basic line (o : obj) =
   if is_main o then begin
